@@ -20,6 +20,7 @@ type TierOpts struct {
 	BudgetS  float64 `json:"budget_s,omitempty"`
 	MaxPaths int     `json:"maxpaths,omitempty"`
 	StepCap  int     `json:"stepcap,omitempty"`
+	ConcCap  int     `json:"conccap,omitempty"`
 	Skip     bool    `json:"skip,omitempty"`
 	Bounds   string  `json:"bounds,omitempty"`
 }
@@ -336,7 +337,7 @@ func cmdCheck(args []string) int {
 			inconclusive = true
 			continue
 		}
-		o := &Opts{Workers: 16, Preempt: -1, MaxZeros: to.MaxZeros, Thorough: thorough, MaxPaths: to.MaxPaths, BudgetS: to.BudgetS, StepCap: to.StepCap, Samples: 3, Validate: 3, Seed: seed}
+		o := &Opts{Workers: 16, Preempt: -1, MaxZeros: to.MaxZeros, Thorough: thorough, MaxPaths: to.MaxPaths, BudgetS: to.BudgetS, StepCap: to.StepCap, ConcCap: to.ConcCap, Samples: 3, Validate: 3, Seed: seed}
 		if thorough {
 			o.Validate = 10
 		}
@@ -519,6 +520,9 @@ func mergeTier(q, t TierOpts) TierOpts {
 	}
 	if t.StepCap != 0 {
 		out.StepCap = t.StepCap
+	}
+	if t.ConcCap != 0 {
+		out.ConcCap = t.ConcCap
 	}
 	if t.Bounds != "" {
 		out.Bounds = t.Bounds
